@@ -5,6 +5,8 @@ EXTENDS Store
 
 TTLsSmall == {0, 1, -1}
 TTLsWide  == {0, 1, 2, -1, -2}
+Neg1 == -1                   \* negative constants for configuration files (a .cfg cannot spell a negative number)
+Neg2 == -2
 TTLsZero  == {0}             \* no per-call TTL at all: with UnlimitedTTL nothing ever carries an expiry
 TTLsJan   == {0, 2, -1, -5}    \* real-clock runs: fresh / just expired / expired longer than DeleteExpiredAfter
 
